@@ -286,3 +286,195 @@ Corollary resolve_impl_no_path : forall base ref,
   match ref with [] => true | c :: _ => N.eqb c k_qmark || N.eqb c k_hash end = true ->
   resolve_impl base ref <> None.
 Proof. intros base ref H. rewrite (resolve_impl_no_path_spec base ref H). discriminate. Qed.
+
+(* ====================================================================================================
+   the other public entry points of the anchored files (Model.v, last section)
+   ==================================================================================================== *)
+(* ---------- the other public entry points ---------- *)
+Theorem is_valid_suffixed_iri_ref_spec : forall ns suf,
+  is_valid_suffixed_iri_ref ns suf = matchb IRI_reference (ns ++ match suf with Some x => x | None => [] end).
+Proof. intros ns [x|]; cbn [is_valid_suffixed_iri_ref]; rewrite ?app_nil_r; apply is_valid_iri_ref_spec. Qed.
+
+(* where the text is cut into namespace and suffix does not matter *)
+Theorem suffixed_split_irrelevant : forall s n,
+  is_valid_suffixed_iri_ref (firstn n s) (Some (skipn n s)) = is_valid_iri_ref s.
+Proof. intros. cbn [is_valid_suffixed_iri_ref]. rewrite firstn_skipn. reflexivity. Qed.
+
+Theorem base_new_spec : forall s,
+  base_iri_new_ok s = matchb IRI s /\ base_iriref_new_ok s = matchb IRI_reference s.
+Proof. intro s. split; [apply is_absolute_iri_ref_spec | apply is_valid_iri_ref_spec]. Qed.
+
+Lemma opt_str_eqb_eq (a b : option str) : opt_eqb str_eqb a b = true -> a = b.
+Proof. destruct a, b; cbn; try congruence. intro H. apply str_eqb_eq in H. congruence. Qed.
+
+(* components that pass parts_ok determine the text (RFC 3986 5.3), and is_absolute = "has a scheme" *)
+Theorem parts_ok_recompose : forall s abs sch auth pth q f,
+  parts_ok s abs sch auth pth q f = true ->
+  recompose (mk_parts sch auth pth q f) = s /\ abs = is_some sch.
+Proof.
+  intros s abs sch auth pth q f H. unfold parts_ok, parts_eqb, base_parts in H.
+  rewrite !andb_true_iff in H. cbn [p_scheme p_authority p_path p_query p_fragment] in H.
+  destruct H as [Habs [[[[H1 H2] H3] H4] H5]].
+  apply opt_str_eqb_eq in H1, H2, H4, H5. apply str_eqb_eq in H3.
+  apply Bool.eqb_prop in Habs.
+  split.
+  - rewrite <- (recompose_parse5 s). destruct (parse5 s); cbn in *. subst. reflexivity.
+  - rewrite <- Habs, H1. reflexivity.
+Qed.
+
+(* the wrappers compare as their texts: equality is equality of texts, the order is a total order *)
+Theorem wrap_eqb_eq : forall a b, wrap_eqb a b = true <-> a = b.
+Proof. intros a b. unfold wrap_eqb, wrap_cmp. rewrite <- str_cmp_eq. destruct (str_cmp a b); split; congruence. Qed.
+Theorem wrap_cmp_antisym : forall a b, wrap_cmp b a = CompOpp (wrap_cmp a b).
+Proof. exact str_cmp_antisym. Qed.
+Theorem wrap_cmp_trans : forall c a b d, wrap_cmp a b = c -> wrap_cmp b d = c -> wrap_cmp a d = c.
+Proof. exact str_cmp_trans. Qed.
+Theorem cmp_ok_sound : forall a b c, cmp_ok a b c = true <-> wrap_cmp a b = c.
+Proof. intros a b c. unfold cmp_ok. destruct (wrap_cmp a b), c; cbn; split; congruence. Qed.
+
+(* ---------- resolution through the other entry points ---------- *)
+Theorem protect_result_absolute : forall base ref o,
+  is_some (p_scheme (base_parts base)) = true -> protect_result base ref o = o.
+Proof. intros base ref o H. unfold protect_result, needs_protection. rewrite H. reflexivity. Qed.
+
+(* a reference given as &str: rejected when invalid; otherwise, on an absolute base, what the typed entry point
+   gives with today's wiring (the checked resolver), except that a failure is returned instead of unwrapped *)
+Theorem resolve_str_invalid : forall base ref, is_valid_iri_ref ref = false -> resolve_str_impl base ref = None.
+Proof. intros base ref H. unfold resolve_str_impl. rewrite H. reflexivity. Qed.
+Theorem resolve_str_typed_agree : forall base ref,
+  typed_resolve_is_checked = true -> is_valid_iri_ref ref = true ->
+  is_some (p_scheme (base_parts base)) = true ->
+  resolve_str_impl base ref = resolve_impl base ref.
+Proof.
+  intros base ref Hc Hv Ha. unfold resolve_str_impl, resolve_impl. rewrite Hv, Hc.
+  destruct (resolve_gen true base ref) as [o|]; cbn [option_map]; [rewrite protect_result_absolute by exact Ha|]; reflexivity.
+Qed.
+(* on any base: whatever the typed entry point of BaseIriRef returns, the &str entry point returns too *)
+Theorem resolve_str_rel_agree : forall base ref o,
+  typed_resolve_is_checked = true -> is_valid_iri_ref ref = true ->
+  resolve_rel_impl base ref = Some o -> resolve_str_impl base ref = Some o.
+Proof.
+  intros base ref o Hc Hv H. unfold resolve_rel_impl, resolve_impl in H. rewrite Hc in H.
+  unfold resolve_str_impl. rewrite Hv.
+  destruct (resolve_gen true base ref) as [x|]; [|discriminate]. cbn [option_map].
+  destruct (iriref_new_unchecked_ok (protect_result base ref x)); congruence.
+Qed.
+
+(* in a dev build the value returned by IriRef::resolve is a valid IRI reference (or the call panics) *)
+Theorem resolve_rel_impl_valid : forall base ref o,
+  resolve_rel_impl base ref = Some o -> matchb IRI_reference o = true.
+Proof.
+  intros base ref o H. unfold resolve_rel_impl in H.
+  destruct (resolve_impl base ref) as [x|]; [|discriminate].
+  destruct (iriref_new_unchecked_ok (protect_result base ref x)) eqn:E; [|discriminate].
+  injection H as <-. unfold iriref_new_unchecked_ok, debug_assertions in E. rewrite <- iriref_new_spec. exact E.
+Qed.
+
+(* the first segment of a protected result has no colon ... *)
+Lemma first_segment_protect : forall o, has_colon (first_segment (protect_first_segment o)) = false.
+Proof.
+  intro o. unfold protect_first_segment. destruct (has_colon (first_segment o)) eqn:E; [|exact E].
+  reflexivity.
+Qed.
+
+Lemma split_first_cons p c s :
+  split_first p (c :: s) = if p c then ([], Some (c, s)) else (c :: fst (split_first p s), snd (split_first p s)).
+Proof. cbn [split_first]. destruct (p c); [reflexivity|]. destruct (split_first p s); reflexivity. Qed.
+
+Definition is_cs (c : N) : bool := N.eqb c k_colon || N.eqb c k_slash.
+(* the delimiter found by parse5 when it looks for a scheme *)
+Definition scheme_split (s : str) : str * option (N * str) :=
+  split_first is_cs (fst (split_first (N.eqb k_qmark) (fst (split_first (N.eqb k_hash) s)))).
+
+Lemma p_scheme_split s :
+  p_scheme (parse5 s) =
+  match snd (scheme_split s) with
+  | Some (c, _) => if N.eqb c k_colon && negb (match fst (scheme_split s) with [] => true | _ => false end)
+                   then Some (fst (scheme_split s)) else None
+  | None => None
+  end.
+Proof.
+  unfold parse5, scheme_split.
+  destruct (split_first (N.eqb k_hash) s) as [s1 f]. cbn [fst].
+  destruct (split_first (N.eqb k_qmark) s1) as [s2 q]. cbn [fst].
+  change (fun c : N => N.eqb c k_colon || N.eqb c k_slash) with is_cs.
+  destruct (split_first is_cs s2) as [pre d]. cbn [fst snd].
+  destruct d as [[c after]|].
+  - destruct (N.eqb c k_colon && negb match pre with [] => true | _ :: _ => false end).
+    + match goal with |- context [let '(_, _) := ?X in _] => destruct X end. reflexivity.
+    + match goal with |- context [let '(_, _) := ?X in _] => destruct X end. reflexivity.
+  - match goal with |- context [let '(_, _) := ?X in _] => destruct X end. reflexivity.
+Qed.
+
+Lemma scheme_split_no_colon : forall s, has_colon (first_segment s) = false ->
+  match snd (scheme_split s) with Some (c, _) => N.eqb c k_colon = false | None => True end.
+Proof.
+  induction s as [|c s IH]; intro H.
+  - exact I.
+  - unfold scheme_split. rewrite (split_first_cons (N.eqb k_hash)).
+    destruct (N.eqb k_hash c) eqn:Eh; [exact I|]. cbn [fst].
+    rewrite (split_first_cons (N.eqb k_qmark)).
+    destruct (N.eqb k_qmark c) eqn:Eq; [exact I|]. cbn [fst].
+    rewrite (split_first_cons is_cs).
+    destruct (is_cs c) eqn:Ec.
+    + cbn [snd]. unfold is_cs in Ec. destruct (N.eqb c k_colon) eqn:Ecol; [|reflexivity].
+      (* c = ':' : then the first segment has a colon *)
+      exfalso. apply N.eqb_eq in Ecol. subst c.
+      unfold first_segment in H. cbn in H. discriminate.
+    + cbn [snd]. apply IH.
+      unfold is_cs in Ec. apply orb_false_iff in Ec. destruct Ec as [Ecol Esl].
+      unfold first_segment in H |- *. cbn [take_while] in H.
+      unfold seg_end in H at 1. rewrite Esl in H.
+      rewrite (N.eqb_sym c k_qmark), Eq, (N.eqb_sym c k_hash), Eh in H. cbn [orb negb] in H.
+      cbn [has_colon existsb] in H. unfold has_colon.
+      rewrite (N.eqb_sym k_colon c), Ecol in H. exact H.
+Qed.
+
+(* a text whose first segment (up to the first "/", "?" or "#") has no colon has no scheme (appendix B) *)
+Theorem no_colon_no_scheme : forall s, has_colon (first_segment s) = false -> p_scheme (parse5 s) = None.
+Proof.
+  intros s H. rewrite p_scheme_split. pose proof (scheme_split_no_colon s H) as D.
+  destruct (snd (scheme_split s)) as [[c after]|]; [|reflexivity]. rewrite D. reflexivity.
+Qed.
+
+(* the content of the repair of BaseIriRef::resolve: two references without a scheme resolve to a reference
+   without a scheme, which (dev build) is a valid IRI reference *)
+Theorem resolve_rel_no_scheme : forall base ref o,
+  p_scheme (parse5 base) = None -> has_colon (first_segment ref) = false ->
+  resolve_rel_impl base ref = Some o ->
+  p_scheme (parse5 o) = None /\ matchb IRI_reference o = true.
+Proof.
+  intros base ref o Hb Hr H. split; [|eapply resolve_rel_impl_valid; exact H].
+  unfold resolve_rel_impl in H. destruct (resolve_impl base ref) as [x|]; [|discriminate].
+  destruct (iriref_new_unchecked_ok (protect_result base ref x)); [|discriminate].
+  injection H as <-. apply no_colon_no_scheme.
+  unfold protect_result, needs_protection, base_parts. rewrite Hb, Hr. cbn [is_some negb andb].
+  apply first_segment_protect.
+Qed.
+
+(* the regression cases of that repair, and what oxiri alone returns for them *)
+Example resolve_rel_colon_protected :
+  is_valid_iri_ref [] = true /\ is_valid_iri_ref [46;47;58] = true /\                       (* "" and "./:" *)
+  resolve_gen true [] [46;47;58] = Some [58] /\ matchb IRI_reference [58] = false /\        (* ":" *)
+  resolve_rel_impl [] [46;47;58] = Some [46;47;58] /\
+  resolve_rel_impl [47;64] [47;46;46;47;44;58;118] = Some [46;47;44;58;118] /\              (* "/@" + "/../,:v" = "./,:v" *)
+  resolve_str_impl [97] [46;47;98;58;99] = Some [46;47;98;58;99].                           (* "a" + "./b:c" = "./b:c" *)
+Proof. vm_compute. repeat split; reflexivity. Qed.
+
+(* the statements above that rest on the two `ka` equivalences, in one theorem (one Print Assumptions walk) *)
+Theorem wide_entry_points_rfc3987 :
+  (forall ns suf, is_valid_suffixed_iri_ref ns suf =
+                  matchb IRI_reference (ns ++ match suf with Some x => x | None => [] end)) /\
+  (forall s, base_iri_new_ok s = matchb IRI s /\ base_iriref_new_ok s = matchb IRI_reference s) /\
+  (forall base ref o, resolve_rel_impl base ref = Some o -> matchb IRI_reference o = true) /\
+  (forall base ref o, p_scheme (parse5 base) = None -> has_colon (first_segment ref) = false ->
+     resolve_rel_impl base ref = Some o -> p_scheme (parse5 o) = None /\ matchb IRI_reference o = true).
+Proof.
+  repeat split.
+  - apply is_valid_suffixed_iri_ref_spec.
+  - apply base_new_spec.
+  - apply base_new_spec.
+  - apply resolve_rel_impl_valid.
+  - eapply resolve_rel_no_scheme; eassumption.
+  - eapply resolve_rel_no_scheme; eassumption.
+Qed.
